@@ -106,6 +106,7 @@ type state struct {
 	watchdogHit bool
 	mapDesc     bool
 	enabledBuf  []*Thread
+	highFirst   bool // default scheduler prefers the youngest (highest id) enabled thread instead of the oldest
 	preemptIn   []string // function-name prefixes whose points may be preempted (nil = everywhere)
 	switchCost  int      // cost of a non-default choice when the running thread cannot continue (0 = preemption bounding, 1 = delay bounding)
 }
@@ -155,6 +156,9 @@ type Config struct {
 	// PreemptionBounding makes switches at blocking points free (CHESS); the default is delay
 	// bounding: every departure from the deterministic default scheduler costs 1.
 	PreemptionBounding bool
+	// HighFirst: when the running thread cannot continue, the default scheduler picks the
+	// youngest enabled thread (highest id) instead of the oldest.
+	HighFirst bool
 }
 
 // Run executes root under the scheduler with the given choice prefix and
@@ -165,7 +169,7 @@ func Run(cfg Config, root func()) *Result {
 	}
 	runID++
 	s = state{active: true, prefix: cfg.Prefix, maxSteps: cfg.MaxSteps, chans: map[uintptr]*chanState{}, ended: make(chan struct{}),
-		invariant: cfg.Invariant, selectCost: cfg.SelectCost, mapDesc: cfg.MapDesc, preemptIn: cfg.PreemptIn, switchCost: 1}
+		invariant: cfg.Invariant, selectCost: cfg.SelectCost, mapDesc: cfg.MapDesc, preemptIn: cfg.PreemptIn, switchCost: 1, highFirst: cfg.HighFirst}
 	if cfg.PreemptionBounding {
 		s.switchCost = 0
 	}
@@ -389,7 +393,12 @@ func pickNext(cur *Thread) *Thread {
 				return nil
 			}
 		}
-		// canonical order: current thread first (if enabled), then ascending id
+		// canonical order: current thread first (if enabled), then ascending (or descending) id
+		if s.highFirst && len(enabled) > 1 {
+			for i, j := 0, len(enabled)-1; i < j; i, j = i+1, j-1 {
+				enabled[i], enabled[j] = enabled[j], enabled[i]
+			}
+		}
 		curEnabled := false
 		if len(enabled) > 1 {
 			for i, th := range enabled {
